@@ -419,6 +419,36 @@ def directed_refusals(ctx):
         for vop, cause in cand:
             for pos in (len(base), len(base) - 1):
                 judge(ctx, cfg, base, res, h0, pos, vop, 'directed/' + cause)
+        # an empty string as second / third path; a Joliet path on an image without Joliet
+        late = [({'op': 'adddir', 'iso': '/NEWE', 'joliet': '', **({'rr': 'newe'} if cfg.get('rr') else {})}, 'adddir/empty-joliet-path'),
+                ({'op': 'adddir', 'iso': '/NEWE', 'udf': '', **({'rr': 'newe'} if cfg.get('rr') else {})}, 'adddir/empty-udf-path')]
+        if cfg.get('rr'):
+            late.append(({'op': 'addsym', 'iso': '/SE.;1', 'rr': 'se', 'target': 'a', 'udf': '', 'utarget': 'a'}, 'addsym/empty-udf-path'))
+        if not cfg.get('joliet'):
+            late.append(({'op': 'rmdir', 'iso': '/E', 'joliet': '/e'}, 'rmdir/joliet-path-without-joliet'))
+        if cfg.get('rr'):
+            # Rock Ridge data of more than one continuation block at an ordinary depth, through every call that takes a name
+            big = 'n' * 2300
+            late += [({'op': 'adddir', 'iso': '/NEWL', 'rr': big}, 'adddir/oversize-rr-name'),
+                     ({'op': 'adddir', 'iso': '/G/NEWL', 'rr': big}, 'adddir/oversize-rr-name-in-subdirectory'),
+                     ({'op': 'addfp', 'cid': 8, 'n': 3, 'iso': '/NEWL.;1', 'rr': big}, 'addfp/oversize-rr-name'),
+                     ({'op': 'addsym', 'iso': '/NEWL.;1', 'rr': 'newl', 'target': 't' * 3000}, 'addsym/oversize-target'),
+                     ({'op': 'addlink', 'ons': 'i', 'old': '/Z.;1', 'nns': 'i', 'new': '/NEWL.;1', 'rr': big}, 'addlink/oversize-rr-name')]
+        for vop, cause in late:
+            judge(ctx, cfg, base, res, h0, len(base), vop, 'directed/' + cause)
+        if cfg.get('rr') and cfg['ilevel'] < 4:
+            # Rock Ridge data that needs more than one continuation block is only discovered when the record is built:
+            # at depth 8 the relocation directory exists by then, and add_eltorito has attached the boot record
+            deep7, p7 = [], ''
+            for i in range(1, 8):
+                p7 += '/DEEP%d' % i
+                deep7.append({'op': 'adddir', 'iso': p7, 'rr': 'deep%d' % i, **({'joliet': p7.lower()} if cfg.get('joliet') else {}), **({'udf': p7.lower()} if cfg.get('udf') else {})})
+            b7 = base + deep7
+            img7, res7, err7 = image_of(cfg, b7)
+            if not err7 and all(r == 'ok' for r in res7):
+                h7 = hashlib.sha256(img7).hexdigest()
+                judge(ctx, cfg, b7, res7, h7, len(b7), {'op': 'adddir', 'iso': p7 + '/DEEP8', 'rr': 'n' * 2300}, 'directed/adddir/depth8-oversize-rr-name')
+                judge(ctx, cfg, b7, res7, h7, len(b7), {'op': 'eltorito', 'boot': '/Z.;1', 'kw': {'rr_bootcatname': 'c' * 2300}}, 'directed/eltorito/oversize-rr-catalog-name')
         # boot files El Torito cannot describe: no data (empty file, symbolic link), or more 512-byte sectors than the
         # 16-bit count of a catalog entry holds
         eb = base + [{'op': 'addfp', 'cid': 7, 'n': 0, 'iso': '/EMPTYB.;1', **({'rr': 'emptyb'} if cfg.get('rr') else {})}]
